@@ -351,6 +351,36 @@ def _judge_model(kind, case, rec, family):
         if not _same_dist(dist, twin):
             rec.violation("C14:nd-result-writes-through", family, case, "writing into the result of %s changed the distribution" % how)
             break
+    # univariate distributions given as arrays of lower dimension than the stored form (0-d mean, 0-d / 1-d / 1x1 covariance,
+    # e.g. np.mean(x), np.var(x), np.cov(x) of a 1-d sample): np.atleast_nd hands back views of such arrays
+    m1, v1 = float(np.round(rng.uniform(-3, 3), 2)), float(np.round(rng.uniform(0.2, 4), 2))
+    for mform in ("0d", "1d", "float"):
+        for cform in ("0d", "1d", "2d", "float"):
+            mu = {"0d": np.array(m1), "1d": np.array([m1]), "float": m1}[mform]
+            cv = {"0d": np.array(v1), "1d": np.array([v1]), "2d": np.array([[v1]]), "float": v1}[cform]
+            try:
+                d1 = sempler.NormalDistribution(mu, cv)
+            except Exception as e:
+                rec.count("copy-on-construct:low-dim-exception-" + type(e).__name__)
+                continue
+            rec.count("copy-on-construct:NormalDistribution-low-dim")
+            if isinstance(mu, np.ndarray):
+                mu[...] = -77.0
+            if isinstance(cv, np.ndarray):
+                cv[...] = 55.0
+            t1 = sempler.NormalDistribution(m1, v1)
+            if not _same_dist(d1, t1):
+                rec.violation("C14:nd-low-dim-argument-not-copied", family, case,
+                              "NormalDistribution(mean as %s, covariance as %s): overwriting the caller's arrays after construction changed the distribution" % (mform, cform))
+                return True
+            # and the other direction: the model's arrays are the model's own, writing into them must not reach the caller's
+            mu2 = {"0d": np.array(m1), "1d": np.array([m1]), "float": m1}[mform]
+            cv2 = {"0d": np.array(v1), "1d": np.array([v1]), "2d": np.array([[v1]]), "float": v1}[cform]
+            d2 = sempler.NormalDistribution(mu2, cv2)
+            if (isinstance(mu2, np.ndarray) and np.shares_memory(d2.mean, mu2)) or (isinstance(cv2, np.ndarray) and np.shares_memory(d2.covariance, cv2)):
+                rec.violation("C14:nd-aliases-constructor-argument", family, case,
+                              "NormalDistribution(mean as %s, covariance as %s) stores the caller's own buffer" % (mform, cform))
+                return True
     return True
 
 
